@@ -44,7 +44,7 @@ def generate(tier, rng):
             calls = rng.sample(calls, len(calls) // 5)
         for call in calls:
             fl = "nm" if rng.random() < 0.7 else "light"
-            if fl == "light" and ("x" in str(call)):
+            if fl == "light" and fc.has_nonnode(call):
                 fl = "nm"
             base.append(fc.mk(fl, False, k, st + [call], cls=(rng.choice(fc.NM_CLASSES) if fl == "nm" else None)))
     res = core.run_driver([dict(c, loglevel=1) for c in base])
